@@ -163,10 +163,22 @@ class FakeNet:
         f = self._event("getaddrinfo", None, (host, port))
         if f is not None:
             self._raise(f, None)
+        # a caching resolver (functools.lru_cache around getaddrinfo is a common idiom): the same list object is handed out for
+        # the same question every time - it is the resolver's, not the caller's to change
+        cache = self.__dict__.setdefault("_resolved", {})
+        ck = (host, port, tuple(map(tuple, self.resolve[host])) if host in self.resolve else None)
+        if ck in cache:
+            lst, snap = cache[ck]
+            if lst != snap:
+                self.flags.append(("resolver-result-changed", self.call, {"host": host, "handed out": snap, "now": list(lst)}))
+            return lst
         if host in self.resolve:
-            return [(fam, self.SOCK_STREAM, self.IPPROTO_TCP, "", addr) for fam, addr in self.resolve[host]]
-        fam = self.AF_INET6 if ":" in str(host) else self.AF_INET
-        return [(fam, self.SOCK_STREAM, self.IPPROTO_TCP, "", (host, port))]
+            lst = [(fam, self.SOCK_STREAM, self.IPPROTO_TCP, "", addr) for fam, addr in self.resolve[host]]
+        else:
+            fam = self.AF_INET6 if ":" in str(host) else self.AF_INET
+            lst = [(fam, self.SOCK_STREAM, self.IPPROTO_TCP, "", (host, port))]
+        cache[ck] = (lst, list(lst))
+        return lst
 
     def socket(self, family=-1, type=-1, proto=-1):
         s = FakeSocket(self, family)
